@@ -20,9 +20,10 @@ sid_templates = {
     'pr':          '{prj}/{kind:p}',
 
     # basetype ct ("cut"): prj / kind / reel / rev / status / fmt
-    'ct__file':    '{prj}/{kind:c}/{reel}/{rev}/{status}/{fmt:movies}',
-    'ct__sound':   '{prj}/{kind:c}/{reel}/{rev}/{status}/{fmt:sounds}',
-    'ct__status':  '{prj}/{kind:c}/{reel}/{rev}/{status}',                # extrapolated
+    # ({reel:r}: a TAGGED placeholder at an intermediate, extrapolated level)
+    'ct__file':    '{prj}/{kind:c}/{reel:r}/{rev}/{status}/{fmt:movies}',
+    'ct__sound':   '{prj}/{kind:c}/{reel:r}/{rev}/{status}/{fmt:sounds}',
+    'ct__status':  '{prj}/{kind:c}/{reel:r}/{rev}/{status}',                # extrapolated
     'ct':          '{prj}/{kind:c}',
 
     # basetype lib: prj / kind / item / fmt
@@ -50,6 +51,7 @@ key_patterns = {
         '{rev}':        r'{rev:(\d\d|\*|\>)}',
         '{status}':     r'{status:(s|p|\*|\>)}',
         '{reel}':       r'{reel:(r\d|\*|\>)}',
+        '{reel:r}':     r'{reel:(r\d|\*|\>)}',
         '{fam}':        r'{fam:(x|y|\*|\>)}',
         '{fmt:images}': r'{fmt:(' + '|'.join(formats_image) + r'|\*|\>)}',
         '{fmt:movies}': r'{fmt:(' + '|'.join(formats_movie) + r'|\*|\>)}',
@@ -72,7 +74,7 @@ key_types = {
 }
 
 # the leaf key differs per basetype: for 'ct' it is an inner level ('rev') of the others
-leaf_keys = {'pr': 'fmt', 'ct': 'rev', 'l_ib': 'fmt', 'prj': 'fmt', None: 'fmt'}
+leaf_keys = {'pr': 'fmt', 'ct': 'rev', 'l_ib': 'fmt'}      # basetypes only: no entry for None / for the one-level 'prj'
 
 basetyped_search_narrowing = {
     'pr': 'kind=~p',
